@@ -38,6 +38,7 @@ import (
 	"verif/internal/rdbx"
 
 	"github.com/mgtv-tech/redis-GunYu/config"
+	"github.com/mgtv-tech/redis-GunYu/pkg/rdb"
 )
 
 const (
@@ -80,6 +81,9 @@ func genLoopCfg(r *rand.Rand, i int) loopCfg {
 
 func main() {
 	drive.Quiet()
+	// values above 512 bytes are replayed in pieces (hook; the tool's threshold is 16 MiB): half of
+	// the snapshot hashes are that big
+	rdb.VerifSetMaxBinEntryBuffer(512)
 	run := harness.New("C13", "exploration",
 		"loop = PRNG(seed,i) → (replay mode by i mod 3, filter class by (i div 3) mod 5, window, snapshot phase yes/no with RESTORE or expanded replay, Redis version of the doubles (single-write "+
 			"transactions unwrapped from 7 on), reader buffer, replication-lag window with conflicting writes, reverse link started late from a snapshot of B, per-link restart event: none / orderly stop after k units committed since the last frontier write / lost reply of the k-th EXEC, each followed by a restart through syncer.newOutput + StartPoint) + client scripts of ≈60–170 id-carrying writes "+
